@@ -34,6 +34,7 @@ type HarnessSpec struct {
 	Require []string // Reached labels that must be hit on >= 1 path
 	What    string
 	TimeoutMs int
+	Overrides map[string]string
 }
 
 type PropSpec struct {
@@ -132,7 +133,7 @@ func runCmd(args []string) {
 			maxPaths, secs = h.ThorPaths, h.ThorSecs
 		}
 		cfg := &gosym.HarnessCfg{Pkg: P.Module + "/" + h.Pkg, Func: h.Func, Workers: *workers, Params: params,
-			Opts: h.Opts, MaxPaths: maxPaths, Deadline: time.Duration(secs) * time.Second, TimeoutMs: h.TimeoutMs}
+			Opts: h.Opts, Overrides: h.Overrides, MaxPaths: maxPaths, Deadline: time.Duration(secs) * time.Second, TimeoutMs: h.TimeoutMs}
 		if *tier == "thorough" && cfg.TimeoutMs == 0 {
 			cfg.TimeoutMs = 120000
 		}
